@@ -448,8 +448,8 @@ func writeEvidence(o Options, pc *PropConfig, reports []*unitReport, ev *evidenc
 		"coverage": cov, "assumptions": assume, "wall_s": wall, "violations": nviol,
 	}
 	b, _ := json.MarshalIndent(e, "", " ")
-	os.MkdirAll(filepath.Join(o.VerifDir, "evidence"), 0o755)
-	os.WriteFile(filepath.Join(o.VerifDir, "evidence", o.Prop+".json"), b, 0o644)
+	os.MkdirAll(filepath.Join(outDir(o), "evidence"), 0o755)
+	os.WriteFile(filepath.Join(outDir(o), "evidence", o.Prop+".json"), b, 0o644)
 }
 
 // ---- known findings ----
@@ -664,7 +664,7 @@ func replayViolations(o Options, hs *HarnessSet, pkgNames map[string]string, vio
 	}
 	defer os.RemoveAll(tmp)
 	rb := &replayBuild{dir: tmp, bin: map[string]string{}, err: map[string]string{}}
-	rdir := filepath.Join(o.VerifDir, "replay", o.Prop)
+	rdir := filepath.Join(outDir(o), "replay", o.Prop)
 	os.RemoveAll(rdir)
 	os.MkdirAll(rdir, 0o755)
 	perID := map[string]int{}
@@ -917,4 +917,14 @@ func crossCheck(dumps []string, tier string) string {
 	}
 	sort.Strings(parts)
 	return fmt.Sprintf("%d discharged obligations re-checked as standalone scripts: %s", len(dumps), strings.Join(parts, " "))
+}
+
+// outDir is where evidence and replay files go: the verification directory, unless SYMGO_OUT redirects them
+// (used when trying the checks against scratch copies of the repository, so that committed evidence is not
+// overwritten).
+func outDir(o Options) string {
+	if d := os.Getenv("SYMGO_OUT"); d != "" {
+		return d
+	}
+	return o.VerifDir
 }
